@@ -229,21 +229,16 @@ def run(ctx, out, tier):
                 else:
                     out.viol("C17.who", "C17.who|%s" % b.id, ctx.where(b, t["span"]), "`%s` is called outside the interpreter factory: a script could run in an interpreter that did not go through the mode table" % callee_name(t))
     runners = [b for b in ctx.reachable_bodies() if any(callee_matches(t, r"^mlua::Function::(call_async|call)$") for bi, t in b.calls())]
-    sites = [(b, bi, t) for b in ctx.reachable_bodies() for bi, t in b.calls() if (t.get("res") or "") == fac.id]
-    for b, bi, t in sites:
-        runner_ids = set()
-        for r in runners:
-            runner_ids.add(r.id)
-            if r.parent:
-                runner_ids.add(r.parent)
-        if b.id in runner_ids and not cfg_of(b).loops_containing(bi):
-            k += 1
-        elif b.id in runner_ids:
-            k += 1
-        else:
-            out.viol("C17.fresh", "C17.fresh|%s" % b.id, ctx.where(b, t["span"]),
-                     "the interpreter is created in `%s`, not in the function that runs one script for one block: interpreters (and their globals) are then shared between scripts/blocks" % b.id)
-    if not sites:
+    # one interpreter per script run: the factory is called only in code that runs once per block (shared with
+    # C13 / C18 / C20: the runner, or anything the spawned per-block task awaits / calls outside a loop)
+    from rules.C18 import check_fresh
+    tr = out.trial()
+    check_fresh(ctx, tr, "C17.fresh")
+    if tr.violations:
+        out.adopt(tr)
+    else:
+        k += len([1 for b in ctx.reachable_bodies() for bi, t in b.calls() if (t.get("res") or "") == fac.id]) or 0
+    if not any((t.get("res") or "") == fac.id for b in ctx.reachable_bodies() for bi, t in b.calls()):
         out.viol("C17.fresh", "C17.fresh|no-site", "-", "the interpreter factory is never called")
     out.inst("C17.who", k, 4, ["Lua::new* only in %s; factory called per script run" % fac.id])
     return meta(obligations, discharged, model)
